@@ -250,6 +250,10 @@ def run(spec, hang_ok=False):
         obs.cancel_events.append(ev)
         d.cancel_began = True
         if how == 'future.cancel':
+            for _ in range(4000):  # the submitting call may not have returned the future yet
+                if xfers[target].future is not None or xfers[target].submit_exc is not None:
+                    break
+                time.sleep(0.0005)
             xfers[target].future.cancel()
         log.add('cancel.end', how=how, target=target)
         cancel_done.set()
@@ -288,13 +292,18 @@ def run(spec, hang_ok=False):
         windows = []
         wspec = ycfg.get('window')
         if wspec:
-            line = yieldinj.find_line(wspec['file'], wspec['text'], wspec.get('occ', 0))
+            if 'lineno' in wspec:
+                line = wspec['lineno']
+            else:
+                line = yieldinj.find_line(wspec['file'], wspec['text'], wspec.get('occ', 0))
             obs.window_found = line is not None
             if line is not None:
                 def action(wspec=wspec):
                     do_cancel({'how': wspec.get('how', 'future.cancel'), 'target': wspec.get('target', 0)})
+                if wspec.get('action') == 'pause':
+                    action = 'pause'
                 windows.append({'file': wspec['file'], 'line': line + wspec.get('line_offset', 0), 'nth': wspec.get('nth', 0),
-                                'action': action, 'name': wspec.get('name', wspec['text'][:40])})
+                                'action': action, 'name': wspec.get('name') or str(wspec.get('text', ''))[:40], 'wait': wspec.get('wait', 0.3)})
         obs.injector = yieldinj.Injector(p=ycfg.get('p', 0.0), seed=spec.get('seed', 0), windows=windows,
                                          files=ycfg.get('files')).install()
         if ycfg.get('switch'):
